@@ -326,4 +326,20 @@ Section Encode.
         destruct (chunks rs (x :: p)); [congruence|reflexivity]. }
       rewrite Z. rewrite Z in T. destruct d; exact T.
   Qed.
+  (* recordSize = 0 used to be an integer division by zero (a run-time panic); Encode
+     returns "mice: invalid record size" now *)
+  Theorem encode_rs0_err d p : encode H d 0 p = Err.
+  Proof. reflexivity. Qed.
+
+  (* hence Encode is total: an error for record size 0, the specified stream otherwise *)
+  Theorem encode_ok_or_err d rs p :
+    (rs = 0 /\ encode H d rs p = Err)
+    \/ (1 <= rs /\ encode H d rs p = Ok (stream H d rs p, digest_header H d rs p)).
+  Proof.
+    destruct (N.eq_dec rs 0) as [->|Hne]; [left; split; [reflexivity|apply encode_rs0_err]|].
+    right. assert (Hrs : 1 <= rs) by lia. split; [exact Hrs|apply encode_refines_spec; exact Hrs].
+  Qed.
+
+  Theorem encode_never_panics d rs p : encode H d rs p <> Panic /\ encode H d rs p <> Fuel.
+  Proof. destruct (encode_ok_or_err d rs p) as [[_ E]|[_ E]]; rewrite E; split; discriminate. Qed.
 End Encode.
